@@ -1166,6 +1166,17 @@ Theorem c12_close_step : forall W cap early ls s l s' c, run W cap early init ls
   forall r, unanswered (rs s c r) = false /\ rs s' c r = rs s c r.
 Proof. intros. eapply close_step_all_answered; eauto using is_reachable. Qed.
 
+(* a request that was read and is not answered — also one that only waits in JobQueue or in the dispatcher's hand —
+   is counted in numInvoke and keeps its connection open and in the table *)
+Theorem c12_unanswered_keeps_connection : forall W cap early ls s, run W cap early init ls = Some s ->
+  forall c r, unanswered (rs s c r) = true ->
+  In r (busy s c) /\ (cst s c = COpen \/ cst s c = CExited) /\ inmap s c = true.
+Proof.
+  intros W cap early ls s Hrun c r Hu. pose proof (reachable_Safe W cap early s (is_reachable _ _ _ _ _ Hrun)) as HS.
+  destruct (unanswered_conn_live s HS c r Hu) as [Hc [_ Hm]].
+  split; [apply (S_busy s HS); exact Hu | auto].
+Qed.
+
 Theorem c12_progress : forall W cap ls s, (0 < cap)%N -> run W cap false init ls = Some s -> alive (ph s) = true ->
   forall c r, unanswered (rs s c r) = true -> exists l, pipeline_label l /\ step W cap false s l <> None.
 Proof. intros. eapply read_requests_progress; eauto using is_reachable. Qed.
